@@ -27,6 +27,7 @@ META = {
     'assumptions': ['C02 oracle (dimension vectors from class definitions, scales from unit definitions)'],
 }
 META['bounds'].append('quotients through converters of a reference-less type: overlapping tables, one-directional affine / int tables, all sequences (a, b, a) of 3-4 quotients; power sequences with non-int exponents before / after')
+META['bounds'].append('quantized DataThroughput x Duration evaluated three times across 3 pairs of default modes; money quotients (3 currency orders) re-evaluated after 3 rate updates')
 
 DECLS = ['type-V', 'type-A2', 'unit-v1', 'unit-v2', 'unit-v3']
 PROBES = ['qa/qb', 'x1/y1', 'qa*qa', 'x1*x1', 'y1/x1', '(qa/qb)*qb', 'qb/qa', 'qa**2']
